@@ -536,6 +536,7 @@ def jobs(tier):
     add('h5_time_changes', N=1, TS=0, TP=2, skip=skip)
     add('h5_time_changes', N=1, TS=2, TP=0, skip=skip)
   add('h5_silence', N=2)
+  add('h5_silence', N=3)
   add('h6_trim_extract', N=2)
   if deep:
     add('h1_partition', budget=1500, N=3, S=3)
